@@ -31,7 +31,7 @@ impl FromStr for EffectFlags {
     type Err = ParseEffectFlagsError;
 
     fn from_str(s: &str) -> Result<Self, Self::Err> {
-        s.parse().map(Self).map_err(ParseEffectFlagsError)
+        s.trim().parse().map(Self).map_err(ParseEffectFlagsError)
     }
 }
 
